@@ -23,14 +23,17 @@ Theorem reply_owned_proof : forall lookup d,
                       fin = negb (opt_bool opts "progress") /\
                       (fin = true -> inv_inprogress inv = false ->
                        cget (d_calls (fst (sync_yield d callee req opts args kw))) cid = None)) /\
-    (* CALL: only refusals of the CALL being processed; nothing was or is recorded for a first chunk *)
+    (* CALL: only refusals of the CALL being processed; every refusal leaves that call unrecorded
+       (a refused further chunk ends the pending call; a refused first chunk changes no call table) *)
     (forall cfg now caller req opts proc args kw oracle m,
         In m (call_out (call cfg lookup now d caller req opts proc args kw oracle)) ->
         forall cid fin, reply_of m = Some (cid, fin) ->
           cid = (s_id caller, req) /\ fin = true /\
           exists d', call cfg lookup now d caller req opts proc args kw oracle = CallRefused d' [m] /\
-                     d_calls d' = d_calls d /\ d_invs d' = d_invs d /\ d_bycall d' = d_bycall d /\
-                     (cget (d_bycall d) cid = None -> cget (d_calls d') cid = None)) /\
+                     cget (d_calls d') cid = None /\
+                     (forall k, cget (d_bycall d) cid = Some k -> gone d' cid k) /\
+                     (cget (d_bycall d) cid = None ->
+                      d_calls d' = d_calls d /\ d_invs d' = d_invs d /\ d_bycall d' = d_bycall d)) /\
     (forall cfg callee req opts proc m, In m (snd (fst (register cfg d callee req opts proc))) -> reply_of m = None) /\
     (forall sid req regid m, In m (snd (fst (unregister d sid req regid))) -> reply_of m = None).
 Proof.
@@ -59,31 +62,43 @@ Proof.
     rewrite E. cbn [fst snd]. split; [apply in_or_app; right; left; reflexivity | exact G].
 Qed.
 
-(** The one place where a final reply does not consume the call: a further
-    chunk of a progressive call whose procedure has meanwhile disappeared is
-    refused with no_such_procedure although the call stays recorded; the
-    callee's answer then produces a second final reply for the same request
-    (run: Router/DealerExamples.v, [chunk_refusal_keeps_call]). *)
-Theorem final_reply_consumes_call_refuted :
-    exists cfg lookup now d caller req opts proc args kw oracle d' m,
-      dealer_wf lookup d /\
-      call cfg lookup now d caller req opts proc args kw oracle = CallRefused d' [m] /\
-      reply_of m = Some ((s_id caller, req), true) /\
-      cget (d_calls d') (s_id caller, req) = Some (s_id caller) /\
-      exists callee ireq, snd (sync_yield d' callee ireq [] [] []) = [(s_id caller, RResult req [] [] [])].
+(** A CALL answered no_such_procedure — first chunk or further chunk of a
+    pending progressive call — leaves nothing recorded for that request: the
+    ERROR is the final reply (the repaired defect; run:
+    Router/DealerExamples.v, [chunk_refusal_ends_call]). *)
+Theorem refused_chunk_ends_call_proof : forall cfg lookup now d caller req opts proc args kw oracle d' o,
+    dealer_wf lookup d ->
+    call cfg lookup now d caller req opts proc args kw oracle = CallRefused d' o ->
+    In (s_id caller, RError c_CALL req [] e_no_such_procedure [] []) o ->
+    let cid := (s_id caller, req) in
+    o = [(s_id caller, RError c_CALL req [] e_no_such_procedure [] [])] /\
+    dealer_wf lookup d' /\
+    cget (d_calls d') cid = None /\ cget (d_bycall d') cid = None /\
+    (forall k, cget (d_bycall d) cid = Some k -> gone d' cid k) /\
+    (cget (d_bycall d) cid = None -> d' = d).
 Proof.
-  exists cfg0, (lk 1 0), 6, dp2, s10, 9, [], "net.solo", [], [], 0, dp2,
-         (10, RError c_CALL 9 [] e_no_such_procedure [] []).
-  split.
-  - (* dp2 is reached by REGISTER, CALL, UNREGISTER *)
-    unfold dp2. apply unregister_wf.
-    pose proof (call_wf cfg0 (lk 0 0) 5 d2s s10 9 prog_opts "net.solo" [] [] 0 wf_d2s (lk_ok 0 0)) as H.
-    assert (E : pc1 = CallInvoked dp1 (set_invgen s11 1) [(11, RInvocation 1 23 [("progress", VBool true); ("procedure", vuri "net.solo")] [] [])])
-      by (vm_compute; reflexivity).
-    unfold pc1 in E. rewrite E in H. destruct H as [_ H].
-    + apply lk_nowrap; vm_compute; reflexivity.
-    + apply att; cbn; auto.
-    + apply H; [apply lk_le; vm_compute; discriminate | reflexivity].
-  - split; [vm_compute; reflexivity|]. split; [reflexivity|]. split; [vm_compute; reflexivity|].
-    exists 11, 1. vm_compute. reflexivity.
+  intros cfg lookup now d caller req opts proc args kw oracle d' o WF E Hin cid.
+  assert (Hnone : cget (d_bycall d) cid = None -> cget (d_calls d) cid = None).
+  { intros Hb. destruct (cget (d_calls d) cid) eqn:Ec; [|reflexivity].
+    destruct (wf_call lookup d WF _ _ Ec) as (_ & _ & Hn). congruence. }
+  assert (Hnps : o = [(s_id caller, RError c_CALL req [] e_no_such_procedure [] [])] ->
+                 d' = no_proc_state d cid ->
+                 o = [(s_id caller, RError c_CALL req [] e_no_such_procedure [] [])] /\
+                 dealer_wf lookup d' /\ cget (d_calls d') cid = None /\ cget (d_bycall d') cid = None /\
+                 (forall k, cget (d_bycall d) cid = Some k -> gone d' cid k) /\
+                 (cget (d_bycall d) cid = None -> d' = d)).
+  { intros Eo ->. split; [exact Eo|]. split; [apply nps_wf; exact WF|].
+    destruct (cget (d_bycall d) cid) as [k|] eqn:Hb.
+    - destruct (nps_gone d cid k Hb) as (G1 & G2 & G3).
+      split; [exact G1|]. split; [exact G2|]. split; [|discriminate].
+      intros k' Hk. inversion Hk; subst k'. unfold gone. auto.
+    - rewrite nps_none by exact Hb.
+      split; [auto|]. split; [exact Hb|]. split; [discriminate | auto]. }
+  pose proof (call_cases cfg lookup now d caller req opts proc args kw oracle) as H.
+  rewrite E in H.
+  inversion H; subst; try (destruct Hin as [Hm|[]]; try discriminate Hm); try (destruct Hin; fail).
+  - apply Hnps; reflexivity.
+  - apply Hnps; reflexivity.
+  - apply Hnps; [reflexivity|]. symmetry. apply nps_none. assumption.
+  - apply Hnps; [reflexivity|]. symmetry. apply nps_none. assumption.
 Qed.
